@@ -125,6 +125,14 @@ func main() {
 	writeIfChanged(dst, zz)
 	replace[filepath.Join(osDir, "zz_dsim.go")] = dst
 
+	rz, err := os.ReadFile(filepath.Join(*patch, "runtime_zz_dsim.go.txt"))
+	if err != nil {
+		die("%v", err)
+	}
+	dst = filepath.Join(*out, "runtime_zz_dsim.go.txt")
+	writeIfChanged(dst, rz)
+	replace[filepath.Join(*goroot, "src", "runtime", "zz_dsim.go")] = dst
+
 	// 2. injected white-box files
 	inj, _ := filepath.Glob(filepath.Join(*patch, "inject", "*.txt"))
 	sort.Strings(inj)
